@@ -517,6 +517,11 @@ func callSSA(i *interpreter, caller *frame, callpos token.Pos, fn *ssa.Function,
 	if caller != nil {
 		fr.g = caller.g
 	}
+	if r := i.cur; r != nil && r.callCounts != nil {
+		if _, ok := r.callCounts[fn.String()]; ok {
+			r.callCounts[fn.String()]++
+		}
+	}
 	if ic := i.lookupIntercept(fn); ic != nil {
 		return ic(fr, args)
 	}
@@ -593,8 +598,13 @@ func runFrame(fr *frame) {
 		}
 		if _, ok := p.(runtime.Error); ok {
 			// a host runtime error inside the interpreter is an engine defect, not a target panic
-			buf := make([]byte, 4096)
+			buf := make([]byte, 16384)
 			n := runtime.Stack(buf, false)
+			if n > 1200 {
+				// skip the recover/panic frames at the top, keep the interesting middle
+				buf = append(buf[:0], buf[300:1500]...)
+				n = len(buf)
+			}
 			panic(unsupported(fmt.Sprintf("interpreter runtime error: %v in %s\n%s", p, fr.fn, buf[:n])))
 		}
 		fr.panicking = true
